@@ -188,6 +188,10 @@ class Gen:
         self.cur_module = "m1"
         self.depth_budget = 0
         self.features = {}
+        self.late = set()          # binder ids whose type only a surrounding call determines (lambda / use parameters)
+        self.alias = {}            # let-bound id -> id it is a plain alias of
+        self.cur_fn = None
+        self.fn_flags = {}         # function name -> set of recorded shapes
 
     def feat(self, k): self.features[k] = self.features.get(k, 0) + 1
 
@@ -304,6 +308,7 @@ class Gen:
             tt = ("tuple", ts)
             vid, vn = self.fresh(tt)
             init = self.expr(tt, env, depth - 1)
+            self.note_access(init[1])
             return f"{{\n let {vn} = {init[0]}\n {vn}.{i}\n}}", f"(blk (let (pv {vid}) {init[1]}) (x (ix (v {vid}) {i})))"
         if c == "field":
             self.feat("field-access")
@@ -315,6 +320,7 @@ class Gen:
                 adt, label = r.choice([(A("Point"), r.choice(["x", "y"])), (A("Box", FLOAT), "value")])
             vid, vn = self.fresh(adt)
             init = self.expr(adt, env, depth - 1)
+            self.note_access(init[1])
             return f"{{\n let {vn} = {init[0]}\n {vn}.{label}\n}}", f"(blk (let (pv {vid}) {init[1]}) (x (fld (v {vid}) {label})))"
         if c == "len":
             t = self.rand_type(0, True)
@@ -340,6 +346,7 @@ class Gen:
             t1 = self.rand_type(1, True)
             a = self.expr(t1, env, depth - 1)
             pid, pn = self.fresh(t1)
+            self.late.add(pid)
             body = self.expr(ty, env + [(pn, pid, t1)], depth - 1, det)
             rt, rs = self.ref(f)
             return f"{rt}({a[0]}, fn({pn}) {{ {body[0]} }})", f"(call {rs} (_ {a[1]}) (_ (lam ({pid}) {body[1]})))"
@@ -349,6 +356,7 @@ class Gen:
             t1 = self.rand_type(1, True)
             a = self.expr(t1, env, depth - 1)
             pid, pn = self.fresh(t1)
+            self.late.add(pid)
             body = self.expr(ty, env + [(pn, pid, t1)], depth - 1, det)
             rt, rs = self.ref(f)
             return f"{self.atom(a[0])} |> {rt}(fn({pn}) {{ {body[0]} }})", f"(pipe {a[1]} (call {rs} (_ (lam ({pid}) {body[1]}))))"
@@ -372,6 +380,7 @@ class Gen:
             t1 = self.rand_type(1, True)
             fid, fname = self.fresh(F([t1], ty))
             pid, pn = self.fresh(t1)
+            self.late.add(pid)
             body = self.expr(ty, env + [(pn, pid, t1)], depth - 1, det)
             a = self.expr(t1, env, depth - 1)
             return (f"{{\n let {fname} = fn({pn}) {{ {body[0]} }}\n {fname}({a[0]})\n}}",
@@ -383,6 +392,7 @@ class Gen:
             t1 = self.rand_type(1, True)
             a = self.expr(t1, env, depth - 1)
             pid, pn = self.fresh(t1)
+            self.late.add(pid)
             body = self.expr(ty, env + [(pn, pid, t1)], depth - 1, det)
             rt, rs = self.ref(f)
             return (f"{{\n use {pn} <- {rt}({a[0]})\n {body[0]}\n}}", f"(call {rs} (_ {a[1]}) (_ (lam ({pid}) {body[1]})))")
@@ -394,6 +404,18 @@ class Gen:
 
     def fn_named(self, n):
         return next(f for f in self.fns if f.name == n)
+
+    def note_access(self, init_sexp):
+        """a field access / tuple index whose base is (an alias of) a lambda or use parameter: glas looks the base
+        type up before the surrounding call's arguments are unified (recorded finding)"""
+        import re as _re
+        m = _re.fullmatch(r"\(v (\d+)\)", init_sexp)
+        if m:
+            i = int(m.group(1))
+            while i in self.alias:
+                i = self.alias[i]
+            if i in self.late and self.cur_fn is not None:
+                self.fn_flags.setdefault(self.cur_fn, set()).add("access-on-late-bound-parameter")
 
     def literal(self, ty, env, depth, det=False):
         r = self.r
@@ -436,6 +458,7 @@ class Gen:
             self.feat("lambda")
             assert det, "lambda literal in an undetermined context"
             ps = [self.fresh(t) for t in ty[1]]
+            for (i, _) in ps: self.late.add(i)
             body = self.expr(ty[2], env + [(n, i, t) for ((i, n), t) in zip(ps, ty[1])], d, det)
             return ("fn(" + ", ".join(n for (_, n) in ps) + ") { " + body[0] + " }",
                     "(lam (" + " ".join(str(i) for (i, _) in ps) + ") " + body[1] + ")")
@@ -480,6 +503,10 @@ class Gen:
                 continue
             e = self.expr(t, env2, depth - 1)
             vid, vn = self.fresh(t)
+            import re as _re
+            m_al = _re.fullmatch(r"\(v (\d+)\)", e[1])
+            if m_al:
+                self.alias[vid] = int(m_al.group(1))
             stm_t.append(f"let {vn} = {e[0]}"); stm_s.append(f"(let (pv {vid}) {e[1]})")
             env2.append((vn, vid, t))
         tail = self.expr(ty, env2, depth - 1, det)
@@ -614,6 +641,7 @@ class Gen:
         """body of a monomorphic generated function (signature already chosen)"""
         r = self.r
         self.cur_module = f.module
+        self.cur_fn = f.name
         f.ann = []
         f.ret_src = f.ret_ann
         env, ids, ptxt = [], [], []
